@@ -40,6 +40,16 @@ def model_check(tier, wd, out):
     out.notes.append("Storage.tla: the faulty variant 'lazy-flush' (flush skipped after batch-only writes) is refuted by TLC")
 
 
+def meta_value(rnd):
+    """application metadata: arbitrary bytes, incl. all-zero values (a block number 0) and a single zero"""
+    k = rnd.randrange(6)
+    if k == 0:
+        return [0] * 8
+    if k == 1:
+        return [0]
+    return [rnd.randrange(256) for _ in range(rnd.choice([1, 3, 5, 40]))]
+
+
 def histories_from_tlc(wd, rnd, num, length, depth):
     """operation histories from TLC -simulate on Tree.tla (calls the persistent API supports)"""
     sc, nb = tree.gen_sim(wd, f"st{depth}", depth, [0, 1, 2], 2, 1, OPS, num, length, seed() + 31 * depth)
@@ -53,7 +63,7 @@ def histories_from_tlc(wd, rnd, num, length, depth):
     # metadata / batch initialisation / explicit flush are not in Tree.tla's alphabet: woven in here
     for h in hs:
         for _ in range(rnd.choice([0, 1, 2])):
-            h.insert(rnd.randrange(len(h) + 1), {"c": "set_meta", "m": [rnd.randrange(256) for _ in range(rnd.choice([0, 1, 3, 40]))]})
+            h.insert(rnd.randrange(len(h) + 1), {"c": "set_meta", "m": meta_value(rnd)})
         if rnd.random() < 0.3:
             h.insert(rnd.randrange(len(h) + 1), {"c": "flush"})
     return hs
@@ -74,7 +84,7 @@ def big_history(rnd, length):
         elif c == "range":
             h.append({"c": "range", "s": rnd.choice([0, 3, 255, 1 << 19]), "vs": [rnd.choice([1, 2, 0]) for _ in range(rnd.choice([1, 2, 4]))]})
         else:
-            h.append({"c": "set_meta", "m": [rnd.randrange(256) for _ in range(5)]})
+            h.append({"c": "set_meta", "m": meta_value(rnd)})
     return h
 
 
@@ -89,7 +99,9 @@ def clean_scenario(idx, d, h, cfg, cont, with_init):
     return sc
 
 
-def fault_scenario(idx, d, h, cfg, ks):
+def fault_scenario(idx, d, h, cfg, ks, retry=True):
+    """retry: the call hit by the failure is issued again (every other history); without it the history ends with the
+    failed call, a flush and the reopen - what the instance reports after the failure must be what the reopen finds"""
     sc = []
     for k in ks:
         o = {"c": "open", "d": d, "path": f"f{idx}_{k}", "cfg": cfg}
@@ -99,7 +111,8 @@ def fault_scenario(idx, d, h, cfg, ks):
         hh = []
         for op in h:
             hh.append(op)
-            hh.append(dict(op, retry=True))
+            if retry:
+                hh.append(dict(op, retry=True))
         sc += [{"c": "arm", "k": k}, dict(o)] + hh + [{"c": "flush"}, {"c": "disarm"}, {"c": "drop"}, dict(o), {"c": "drop"}]
     return sc
 
@@ -120,7 +133,7 @@ def crash_history(rnd, d):
         {"c": "range", "s": st2, "vs": [rnd.choice([4, 5, 7]), rnd.choice([4, 5, 7])]},
         {"c": "override", "s": st2, "vs": [rnd.choice([3, 8]), rnd.choice([3, 8])], "rem": []},
         {"c": "override", "s": 0, "vs": [], "rem": [rnd.randrange(n0)]},
-        {"c": "set_meta", "m": [rnd.randrange(256) for _ in range(rnd.choice([1, 5, 40]))]},
+        {"c": "set_meta", "m": meta_value(rnd)},
         {"c": "append", "v": rnd.choice([1, 6])},
     ]
     rnd.shuffle(paths)
@@ -213,19 +226,26 @@ def run_c16(tier, out, prop="C16"):
             continue
         # number of storage operations of creation + history + flush, measured by the hook on the clean run
         w = 0
+        firsts = set()               # the first storage operation of every call of the history (every call kind gets hit)
+        metas = set()
         for r in rows:
             if r["t"] in ("open", "op"):
+                if r.get("sops", 0) > 0:
+                    firsts.add(w + 1)
+                    if r["t"] == "op" and r["op"]["c"] == "set_meta":
+                        metas.add(w + 1)
                 w += r.get("sops", 0)
             if r["t"] == "drop":
                 break
         ks = list(range(1, w + 1))
         if quick and len(ks) > 8:
-            keep = {1, 5, 6, w, w - 1}
-            keep |= set(rnd.sample(ks, 4))
+            keep = {1, 5, 6, w, w - 1} | metas
+            keep |= set(rnd.sample(sorted(firsts), min(3, len(firsts))))
+            keep |= set(rnd.sample(ks, 3))
             ks = sorted(k for k in ks if k in keep)
         if d > 5 and len(ks) > 12:
             ks = sorted(set(rnd.sample(ks, 12)) | {1, w})
-        fsc = fault_scenario(idx, d, h, cfg, ks)
+        fsc = fault_scenario(idx, d, h, cfg, ks, retry=(idx % 2 == 0))
         tp, tb = execute(binary, wd, f"fault{idx}", fsc)
         rows = read_ndjson(tp)
         res = judge(prop, wd, f"fault{idx}", tp, tb, kf_names)
